@@ -1,4 +1,5 @@
 import XdslProofs.Lemmas.SymbolTable
+import XdslProofs.Lemmas.SymbolTableRename
 /-!
 # C29 — property theorems
 
@@ -238,6 +239,104 @@ example :
     ∧ (traitsGo true exampleTree [2, 1]).map Op.id = none
     ∧ (lookupIn directChild exampleTree (.ref 0 [1])).map Op.id = none
     ∧ (traitsGo true exampleTree [0, 1]).map Op.id = none
+    ∧ (lookupIn directChild exampleTree (.flat 1)).map Op.id = some 2 := by decide
+
+/-! ### names are opaque tokens
+
+The property sentence speaks of "the operation with that name": a name is something that is equal
+to itself and to nothing else.  The model numbers the names; the real code compares Python strings.
+The theorems below say that no entry point of the model uses anything of a name but equality —
+respelling all names of the tree and of the reference by an injective map leaves every answer (the
+operation found, identified by its position/id) unchanged.  They are what entitles the harness to
+compare the real resolvers, run on the same tree under arbitrary spellings (empty string, blanks,
+case variants, `::`, NUL, canonically equivalent unicode, …), with the one numbered model. -/
+
+/-- respelling does not move operations: the op at a path of the respelled tree is the respelled op
+at that path, with the same ancestor chain -/
+theorem rename_chain (f : Nat → Nat) (root : Op) (p : List Nat) :
+    chainAt (root.rename f) p [] = (chainAt root p []).map (List.map (Op.rename f)) := by
+  simpa using chainAt_rename f root p []
+
+/-- `get_nearest_symbol_table` does not look at names -/
+theorem rename_nearest_table (f : Nat → Nat) (chain : List Op) :
+    nearestTable (chain.map (Op.rename f)) = (nearestTable chain).map (Op.rename f) :=
+  nearestTable_rename f chain
+
+/-- direct lookup (`lookup_symbol_in`, also with `all_symbols`, and `lookup_nearest_symbol_from`):
+the answer under an injective respelling is the respelled answer -/
+theorem rename_direct {f : Nat → Nat} (hf : Function.Injective f) (t : Op) (chain : List Op) (s : Sym) :
+    lookupIn directChild (t.rename f) (s.rename f) = (lookupIn directChild t s).map (Op.rename f)
+    ∧ lookupAllIn directChild (t.rename f) (s.rename f)
+        = (lookupAllIn directChild t s).map (List.map (Op.rename f))
+    ∧ lookupNearest directChild (chain.map (Op.rename f)) (s.rename f)
+        = (lookupNearest directChild chain s).map (Op.rename f) :=
+  ⟨lookupIn_rename (directChild_rename hf) t s, lookupAllIn_rename (directChild_rename hf) t s,
+   lookupNearest_rename (directChild_rename hf) chain s⟩
+
+/-- cached lookup (`SymbolTable.__init__`/`lookup`, `SymbolTableCollection`), on every tree —
+verified or not: the dict of `__init__` registers a symbol whatever its name is -/
+theorem rename_cached {f : Nat → Nat} (hf : Function.Injective f) (t : Op) (chain : List Op) (s : Sym) :
+    cachedChild (t.rename f) (f s.root) = (cachedChild t s.root).map (Op.rename f)
+    ∧ lookupIn cachedChild (t.rename f) (s.rename f) = (lookupIn cachedChild t s).map (Op.rename f)
+    ∧ lookupAllIn cachedChild (t.rename f) (s.rename f)
+        = (lookupAllIn cachedChild t s).map (List.map (Op.rename f))
+    ∧ lookupNearest cachedChild (chain.map (Op.rename f)) (s.rename f)
+        = (lookupNearest cachedChild chain s).map (Op.rename f) :=
+  ⟨cachedChild_rename hf t s.root, lookupIn_rename (cachedChild_rename hf) t s,
+   lookupAllIn_rename (cachedChild_rename hf) t s, lookupNearest_rename (cachedChild_rename hf) chain s⟩
+
+/-- `SymbolTable(op).lookup(name)` -/
+theorem rename_table_lookup {f : Nat → Nat} (hf : Function.Injective f) (t : Op) (s : Sym) :
+    tableLookup (t.rename f) (s.rename f) = (tableLookup t s).map (Option.map (Op.rename f)) := by
+  cases s with
+  | flat n => simp [Sym.rename, tableLookup, cachedChild_rename hf t n]
+  | ref r ns => simp [Sym.rename, tableLookup]
+
+/-- `traits.SymbolTable.lookup_symbol` (what the driver prints: the id found, `none`, or the
+`ValueError`) -/
+theorem rename_traits {f : Nat → Nat} (hf : Function.Injective f) (chain : List Op) (s : Sym) :
+    showTraits (traitsLookup (chain.map (Op.rename f)) (s.rename f)) = showTraits (traitsLookup chain s) := by
+  have hs : (s.rename f).root :: (s.rename f).nested = (s.root :: s.nested).map f := by
+    cases s <;> simp [Sym.rename, Sym.root, Sym.nested]
+  unfold traitsLookup
+  rw [nearestTable_rename, hs]
+  cases nearestTable chain with
+  | none => simp
+  | some t =>
+    simp only [Option.map_some, traitsGo_rename hf]
+    cases traitsGo true t (s.root :: s.nested) with
+    | none => simp
+    | some o => simp [showTraits]
+
+/-- the symbol-table part of `Operation.verify` -/
+theorem rename_verify {f : Nat → Nat} (hf : Function.Injective f) (root : Op) :
+    verifyB (root.rename f) = verifyB root := verifyB_rename hf root
+
+/-- All of it at once, as the check uses it: take any tree, any start operation (path `p`), any
+reference; respell tree and reference by an injective `f`.  Then the respelled tree verifies iff
+the original does, the start operation is at the same path, and every entry point designates the
+operation with the same id (or nothing, or the `ValueError`) as before. -/
+theorem spelling_irrelevant {f : Nat → Nat} (hf : Function.Injective f) (root : Op) (p : List Nat)
+    (chain : List Op) (s : Sym) (h : chainAt root p [] = some chain) :
+    verifyB (root.rename f) = verifyB root
+    ∧ ∃ chain', chainAt (root.rename f) p [] = some chain' ∧ chain'.map Op.id = chain.map Op.id
+      ∧ (nearestTable chain').map Op.id = (nearestTable chain).map Op.id
+      ∧ (lookupNearest directChild chain' (s.rename f)).map Op.id
+          = (lookupNearest directChild chain s).map Op.id
+      ∧ (lookupNearest cachedChild chain' (s.rename f)).map Op.id
+          = (lookupNearest cachedChild chain s).map Op.id
+      ∧ showTraits (traitsLookup chain' (s.rename f)) = showTraits (traitsLookup chain s) := by
+  refine ⟨rename_verify hf root, chain.map (Op.rename f), ?_, ?_, ?_, ?_, ?_, rename_traits hf chain s⟩
+  · rw [rename_chain, h]; rfl
+  · simp [Function.comp_def]
+  · rw [nearestTable_rename]; cases nearestTable chain <;> simp
+  · rw [(rename_direct hf root chain s).2.2]; cases lookupNearest directChild chain s <;> simp
+  · rw [(rename_cached hf root chain s).2.2.2]; cases lookupNearest cachedChild chain s <;> simp
+
+/-- injectivity is needed: a spelling that identifies two names changes answers (this is what a
+resolver that normalises names — strips, lower-cases, treats the empty name as absent — does) -/
+theorem rename_noninjective_counterexample :
+    (lookupIn directChild (exampleTree.rename fun _ => 0) ((Sym.flat 1).rename fun _ => 0)).map Op.id = some 1
     ∧ (lookupIn directChild exampleTree (.flat 1)).map Op.id = some 2 := by decide
 
 /-- without unique names the cached (last wins) and direct (first wins) resolvers differ: the
